@@ -61,3 +61,40 @@ Definition xstep (x : xi) (R : regs) : option regs :=
 
 Fixpoint xrun (l : list xi) (R : regs) : option regs :=
   match l with [] => Some R | x :: l' => match xstep x R with Some R' => xrun l' R' | None => None end end.
+
+(** ** condition codes after CMP / TEST (Intel SDM vol. 1, 3.4.3 and appendix B): [xcond x code R] = is `jcc code` taken right
+    after the flag-setting instruction x?  CMP a, b compares a with b; TEST a, b compares (a AND b) with 0. *)
+Definition flag_operands (x : xi) (R : regs) : option (bool * Z * Z * Z) :=     (* is_test, width, a, b *)
+  match x with
+  | XAlu w op reg rm =>
+    let W := opw w in
+    if op =? 0x39 then Some (false, W, R rm mod 2 ^ W, R reg mod 2 ^ W)
+    else if op =? 0x85 then Some (true, W, R rm mod 2 ^ W, R reg mod 2 ^ W)
+    else None
+  | XAluI32 w op ext rm imm =>
+    let W := opw w in
+    if (op =? 0x81) && (ext =? 7) then Some (false, W, R rm mod 2 ^ W, imm mod 2 ^ W)
+    else if (op =? 0xf7) && (ext =? 0) then Some (true, W, R rm mod 2 ^ W, imm mod 2 ^ W)
+    else None
+  | _ => None
+  end.
+
+Definition xcond (x : xi) (code : Z) (R : regs) : option bool :=
+  match flag_operands x R with
+  | None => None
+  | Some (is_test, W, a, b) =>
+    let l := if is_test then Z.land a b else a in      (* value compared ... *)
+    let r := if is_test then 0 else b in                (* ... with *)
+    if code =? 0x84 then Some (l =? r)                  (* je / jz *)
+    else if code =? 0x85 then Some (negb (l =? r))      (* jne / jnz *)
+    else if is_test then None
+    else if code =? 0x87 then Some (r <? l)             (* ja *)
+    else if code =? 0x83 then Some (r <=? l)            (* jae *)
+    else if code =? 0x82 then Some (l <? r)             (* jb *)
+    else if code =? 0x86 then Some (l <=? r)            (* jbe *)
+    else if code =? 0x8f then Some (sgnw W r <? sgnw W l)     (* jg *)
+    else if code =? 0x8d then Some (sgnw W r <=? sgnw W l)    (* jge *)
+    else if code =? 0x8c then Some (sgnw W l <? sgnw W r)     (* jl *)
+    else if code =? 0x8e then Some (sgnw W l <=? sgnw W r)    (* jle *)
+    else None
+  end.
